@@ -18,7 +18,8 @@ RULE = ("random programs with 1-3 feedback edges (self loops, mutually dependent
 ASSUMPTIONS = ["recorders are ordinary sink nodes logging (time, value) from user code",
                "vp/model.py for the remaining nodes", "g++-12 -O1 build of the working tree with harness-side shims"]
 FLOORS = {"deliveries_checked": {"quick": 3000, "thorough": 40000}, "loops": {"quick": 300, "thorough": 4000},
-          "consecutive_step_writes": {"quick": 300, "thorough": 4000}, "quiescent_loops": {"quick": 4, "thorough": 60}}
+          "consecutive_step_writes": {"quick": 300, "thorough": 4000}, "quiescent_loops": {"quick": 4, "thorough": 60},
+          "collection_deliveries_checked": {"quick": 500, "thorough": 8000}}
 BATCH = 25
 
 
@@ -94,9 +95,82 @@ def gen_fb_case(rng, name):
     return c
 
 
+def gen_collfb(rng, name):
+    """Feedback over a collection shape: producer = scripted collection source, reader mirrored."""
+    from .gen_coll import gen_cscript
+    end = rng.choice([20, 35])
+    c = Case(name, 0, end)
+    sh = rng.choice(["tsl", "tsl", "tss", "tsd", "tsb", "lb", "dss"])
+    c.cscripts[1] = gen_cscript(rng, sh, 0, end)
+    c.meta.update(kind="collfb", shape=sh)
+    c.graphs["main"] = [S("d", "csrc", shape=sh, uid=1), S("f", "cfb", shape=sh), S("", "bind", "f", "d"),
+                        S("", "cmirror", "d", uid=10), S("", "cmirror", "f", uid=11)]
+    return c
+
+
 def generate(rng, tier, seed):
     n = 400 if tier == "quick" else 6000
-    return [gen_fb_case(rng, f"c08_{seed}_{k}") for k in range(n)]
+    cases = [gen_fb_case(rng, f"c08_{seed}_{k}") for k in range(n)]
+    cases += [gen_collfb(rng, f"c08_{seed}_coll{k}") for k in range(n // 3)]
+    return cases
+
+
+def shift_lmt(d, by):
+    if isinstance(d, dict):
+        out = {k: shift_lmt(v, by) for k, v in d.items()}
+        if "lmt" in out and isinstance(out["lmt"], int) and out["lmt"] >= 0:
+            out["lmt"] = out["lmt"] + by
+        return out
+    if isinstance(d, list):
+        return [shift_lmt(x, by) for x in d]
+    return d
+
+
+def check_collfb(case, tr):
+    from .gen_coll import parse_dumps
+    from .c20 import Differ, empty_structural, MECH_EMPTY, MECH_NULLFIELD
+    res = Result(signature=case.text().split("\n", 1)[1])
+    run = tr.runs[0]
+    if tr.build_error or run.error:
+        res.violations.append(Violation(f"build/run failed: {tr.build_error or run.error}"))
+        return res
+    dumps = parse_dumps(run)
+    prod = {t: d for t, d, _ in dumps.get(10, [])}
+    read = {t: d for t, d, _ in dumps.get(11, [])}
+    V, known = [], {}
+    df = Differ()
+    prev_valid = False
+    delivered = 0
+    for t in sorted(prod):
+        d = prod[t]
+        if t + 1 >= case.end:
+            continue
+        if t + 1 not in read:
+            if prev_valid and empty_structural(d):
+                known.setdefault(MECH_EMPTY, f"producer ticked at t={t} with an empty structural delta; the feedback reader has no tick at t={t + 1}")
+                df.diverged.add(())
+            else:
+                V.append(f"value written at t={t} (delta {d['d'][:60]!r}) was not delivered at t={t + 1}")
+            prev_valid = prev_valid or bool(d["v"])
+            continue
+        delivered += 1
+        df.cmp(d, shift_lmt(read[t + 1], -1), t)
+        prev_valid = prev_valid or bool(d["v"])
+    for mech, msg in df.out:
+        if mech:
+            known.setdefault(mech, msg)
+        elif len(V) < 8:
+            V.append("feedback reader differs from what was written one step earlier: " + msg)
+    extra = sorted(t for t in read if t - 1 not in prod)
+    if extra:
+        V.append(f"feedback reader ticked at {extra[:6]} without a write one step earlier")
+    for m in V[:5]:
+        res.violations.append(Violation(m))
+    for mech, msg in known.items():
+        res.violations.append(Violation(msg, mech))
+    res.counters = {"collection_deliveries_checked": delivered}
+    res.nontrivial = delivered >= 3
+    return res
 
 
 def compare_all(case, run, mr):
@@ -104,6 +178,8 @@ def compare_all(case, run, mr):
 
 
 def check(case, tr):
+    if case.meta.get("kind") == "collfb":
+        return check_collfb(case, tr)
     res = Result(signature=case.text().split("\n", 1)[1])
     if tr.build_error:
         res.violations.append(Violation(f"valid program rejected at build: {tr.build_error}"))
